@@ -48,7 +48,7 @@ impl Property for C18 {
     }
 
     fn rule(&self) -> &'static str {
-        "case = (definitions incl. up to 6 decoy tables before/after the queried one, statement [* over 10 columns / * over a join with clashing column names / GROUP BY with 6-8 aggregates and a HAVING over several more / COUNT(DISTINCT) and join keys over REAL values that are equal but not bit-identical (0.0, -0.0), TEXT, INT / an error-producing row], input, joined file with 3-6 partners per key, K hash-key blocks [8 quick, 64 thorough], repeat count). The same query runs once per key block on a fresh thread (getrandom seam), twice under the same block, repeated inside one thread, and for a fraction of cases once under real OS entropy; all outputs must be byte-identical. Non-trivial iff two of the key blocks give a different iteration order to a 16-entry probe HashMap built on the same kind of thread AND the input has >=2 lines; distinct by (case content hash, key-block set)."
+        "case = (definitions incl. up to 6 decoy tables before/after the queried one, statement [* over 10 columns / * over a join with clashing column names / GROUP BY with 6-8 aggregates and a HAVING over several more / COUNT(DISTINCT) and join keys over REAL values that are equal but not bit-identical (0.0, -0.0), TEXT, INT / an error-producing row], input given as 1-3 files (rare regime: 2-5 files of thousands of lines under ARRAY_AGG / STRING_AGG / REAL sums, whose value depends on arrival order), joined file with 3-6 partners per key, K hash-key blocks [8 quick, 64 thorough], repeat count). The same query runs once per key block on a fresh thread (getrandom seam), twice under the same block, repeated inside one thread, and for a fraction of cases once under real OS entropy; all outputs must be byte-identical. Non-trivial iff two of the key blocks give a different iteration order to a 16-entry probe HashMap built on the same kind of thread AND the input has >=2 lines; distinct by (case content hash, key-block set)."
     }
 
     fn assumptions(&self) -> Vec<String> {
@@ -78,6 +78,30 @@ impl Property for C18 {
                 "os_entropy": false,
             });
         }
+        if rng.chance(if thorough { 4 } else { 2 }, 3000) {
+            // several large input files and aggregates whose value depends on the order in which rows arrive:
+            // the order must be the input order (file 1, file 2, ...), however the files happen to be read
+            let n = rng.range(9_000, 24_000) as usize;
+            let lines: Vec<String> = (0..n).map(|i| format!("W g{} {} 0.{} t{} {} 0.25 c 1 0.75 d", i % 3, (i as u64 * 7919) % 1009, 1 + (i * 37) % 8, i % 11, i % 7)).collect();
+            let keys: Vec<[u8; 16]> = (0..3).map(|_| rng.key16()).collect();
+            return json!({
+                "prop": "C18",
+                "kind": "multi_file",
+                "defs": format!("{} {}", WIDE, JOINED),
+                "stmt": *rng.pick(&[
+                    "SELECT c0, STRING_AGG(c3, ',') AS s, SUM(c2) AS f, AVG(c2) AS m FROM w GROUP BY c0",
+                    "SELECT ARRAY_AGG(c1) AS a, STDDEV(c2) AS sd, COUNT(*) AS c FROM w",
+                    "SELECT c4, ARRAY_AGG(c3) AS a, SUM(c2) AS f FROM w GROUP BY c4",
+                ]),
+                "lines": lines,
+                "joined": [],
+                "n_files": rng.range(2, 5),
+                "keys": keys_to_json(&keys),
+                "repeat": 1,
+                "format": "text",
+                "os_entropy": false,
+            });
+        }
         if rng.chance(if thorough { 4 } else { 1 }, 5000) {
             // huge joined file (beyond 8 MiB): partners of one key are spread over the whole file
             let keys: Vec<[u8; 16]> = (0..3).map(|_| rng.key16()).collect();
@@ -95,7 +119,7 @@ impl Property for C18 {
                 "os_entropy": false,
             });
         }
-        let kind = *rng.pick(&["star", "star_join", "group", "group", "distinct_real", "distinct_real", "join_real", "join_int", "join_int_real", "error_row", "group_special_real", "group_special_real", "name_lookup", "many_groups", "history", "dup_names", "tz"]);
+        let kind = *rng.pick(&["star", "star_join", "group", "group", "distinct_real", "distinct_real", "join_real", "join_int", "join_int_real", "error_row", "group_special_real", "group_special_real", "name_lookup", "many_groups", "history", "dup_names", "tz", "env"]);
         let zero_heavy = kind == "distinct_real" || kind == "join_real" || kind == "group_special_real" || rng.chance(1, 4);
         // REAL values that are not ordinary numbers: NaN, infinities (legal literals for a REAL column)
         let special = kind == "group_special_real";
@@ -158,6 +182,8 @@ impl Property for C18 {
             // several output names used more than once (JSON output has one key per name)
             "dup_names" => "SELECT c0 AS a, c1 AS a, c3 AS b, c4 AS b, c6 AS c, c7 AS c, c9 AS a FROM w".to_owned(),
             // text turned into timestamps: local time in, local time out, whatever the zone
+            // plain query whose CSV rendering must not depend on the locale of the process
+            "env" => "SELECT c0, c1, c2, c3 FROM w".to_owned(),
             "tz" => "SELECT c0, '2022-10-11 22:00:00'::timestamp AS t1, '2021-03-28 02:30:00'::timestamp AS t2, EXTRACT(HOUR FROM '2022-01-05 07:08:09'::timestamp) AS h FROM w".to_owned(),
             "history" => format!("SELECT w.c0, v.c0, v.y, v.x FROM w {} JOIN v::'{}' ON w.c0 = v.c0", rng.pick(&["INNER", "OUTER"]), JOINED_PATH),
             "many_groups" => format!(
@@ -211,7 +237,8 @@ impl Property for C18 {
             "joined": joined,
             "keys": keys_to_json(&keys),
             "repeat": rng.range(1, 3),
-            "format": if special { *rng.pick(&["text", "csv"]) } else if kind == "dup_names" { "json" } else { *rng.pick(&["text", "json", "csv"]) },
+            "n_files": *rng.pick(&[1, 1, 1, 2, 3]),
+            "format": if special { *rng.pick(&["text", "csv"]) } else if kind == "dup_names" { "json" } else if kind == "env" { "csv" } else { *rng.pick(&["text", "json", "csv"]) },
             "os_entropy": rng.chance(1, 16),
         })
     }
@@ -223,6 +250,7 @@ impl Property for C18 {
         array_field(case, "lines", &mut out);
         array_field(case, "joined", &mut out);
         num_field(case, "repeat", 1, &mut out);
+        num_field(case, "n_files", 1, &mut out);
         set_field(case, "format", json!("text"), &mut out);
         bool_field(case, "os_entropy", false, &mut out);
         // drop decoy tables
@@ -250,6 +278,10 @@ impl Property for C18 {
         let repeat = jusize(case, "repeat", 1).clamp(1, 4);
         let features = json!({"kind": kind, "signed_zero": lines.iter().chain(joined.iter()).any(|l| l.contains(" -0"))});
         let file: Vec<u8> = lines.iter().map(|l| format!("{}\n", l)).collect::<String>().into_bytes();
+        // the same lines given as several input files, in order
+        let n_files = jusize(case, "n_files", 1).clamp(1, 8).min(lines.len().max(1));
+        let per_file = (lines.len() + n_files - 1) / n_files.max(1);
+        let files: Vec<Vec<u8>> = if n_files <= 1 { vec![file.clone()] } else { lines.chunks(per_file.max(1)).map(|c| c.iter().map(|l| format!("{}\n", l)).collect::<String>().into_bytes()).collect() };
         let mut jfile: Vec<u8> = joined.iter().map(|l| format!("{}\n", l)).collect::<String>().into_bytes();
         if let Some(g) = case.get("joined_gen") {
             // compact description of a huge joined file: line i joins on key number i % keys
@@ -263,7 +295,7 @@ impl Property for C18 {
             out.probe("joined_file_over_8_mib", (jfile.len() > 8 * 1024 * 1024) as u64);
         }
         let make = |key: Option<[u8; 16]>, repeat: usize| -> WorldSpec {
-            let mut b = batch_spec(&defs, &stmt, &[file.clone()], Some(&jfile));
+            let mut b = batch_spec(&defs, &stmt, &files, Some(&jfile));
             b.format = format.clone();
             b.repeat = repeat;
             match key {
@@ -341,6 +373,19 @@ impl Property for C18 {
             }
             out.probe("os_entropy_runs", 1);
         }
+        if kind == "env" {
+            // locale variables of the process are ambient state too
+            for (k, v) in [("LANG", "en_US.UTF-8"), ("LC_ALL", "ja_JP.UTF-8"), ("LC_NUMERIC", "en_GB.UTF-8"), ("LANG", "de_DE.UTF-8"), ("LC_ALL", "C")] {
+                let mut b = make(Some(k0), 1);
+                b.env = vec![(k.to_owned(), v.to_owned())];
+                let r = run(&mut out, &format!("{}={}", k, v), &b, false);
+                if status_label(&r.status) != s0 || records(&r) != r0 {
+                    out.violate("c18.depends_on_environment", format!("{}: with {}={} the output is {} {} but without it {} {}", stmt, k, v, status_label(&r.status), show(&records(&r)), s0, show(&r0)), features.clone());
+                    return out;
+                }
+            }
+            out.probe("locale_variables_varied", 1);
+        }
         if kind == "tz" {
             // the zone of the process is ambient state as well: local time in, local time out
             for tz in ["JST-9", "XYZ+3:30", "UTC0", "AAA-13"] {
@@ -393,6 +438,7 @@ impl Property for C18 {
         out.probe("distinct_probe_orders", probe_orders.len() as u64);
         out.probe(&format!("kind_{}", kind), 1);
         out.probe("signed_zero_in_data", lines.iter().chain(joined.iter()).any(|l| l.contains(" -0")) as u64);
+        out.probe("several_input_files", (files.len() > 1) as u64);
         out.probe("decoy_tables", (defs.matches("CREATE TABLE").count() > 2) as u64);
         out
     }
